@@ -103,6 +103,16 @@ def gen_cases(tier, seed):
                                                            outer=("range", "from10")[(r // 2) % 2],
                                                            cont=("list", "array")[(r // 4) % 2],
                                                            name=("p", "Sample_Data")[(r // 8) % 2]))
+    # long series (numpy abbreviates the printed form of arrays with more than 1000 elements)
+    for L in (999, 1000, 1001, 1500):
+        for fam in FAMS:
+            for labels in LABELSETS[:2]:
+                i += 1
+                r = i + seed
+                yield dict(kind="a", n=2, L=L, fam=fam, labels=labels, comment="none",
+                           lenopt=LENOPTS[i % len(LENOPTS)],
+                           rep=dict(inner=("range", "from5")[r % 2], outer="range",
+                                    cont=("list", "array")[(r // 4) % 2], name="p"))
     root = _datadir()
     dirs = sorted(d for d in os.listdir(root) if os.path.isdir(os.path.join(root, d)))
     ts_dirs = []
